@@ -97,7 +97,8 @@ class Report:
             out_lines.append(f'KNOWN-FINDING: property={self.pid} {e.get("what", o["text"])} [{o["rule"]} at {o["site"]}]')
         replay_path = None
         dry = bool(os.environ.get('SA_NO_EVIDENCE'))
-        if new and analysis_error is None:
+        if new:
+            # violations already established stand even when a later rule could not be evaluated
             replay_path = os.path.join(VERIF, 'replay', f'{self.pid}.json')
             if not dry:
                 os.makedirs(os.path.join(VERIF, 'replay'), exist_ok=True)
@@ -167,7 +168,9 @@ class Report:
             print('   rule counts:', {k: v['n'] for k, v in self.rules.items()})
         for l in out_lines:
             print(l)
-        if analysis_error is not None:
+        if analysis_error is not None and not new:
             print(f'ANALYSIS-ERROR property={self.pid} {analysis_error}')
             return 2
+        if analysis_error is not None:
+            print(f'NOTE: a later rule could not be evaluated on this tree: {analysis_error}')
         return 1 if new else 0
